@@ -79,6 +79,33 @@ def check_hash_covers_generated_code(ctx, rule='R10-hash-covers-text'):
     return n
 
 
+def check_hashed_parts_are_written(ctx, model):
+    """Round 8.  a generated part that the cookie covers is written on every path that writes the
+    module.  A part that is hashed whatever the options say, but written only under an option,
+    gives two configurations one cookie for two different files"""
+    fi = model.fi
+    seen_cov = set()
+    for p in model.paths:
+        evs = model.events(p)
+        hin = hash_inputs(model, evs)
+        for ev in evs:
+            if ev['ev'] != 'write':
+                continue
+            written = {canon(strip_encode(op)) for op in concat_operands(ev['arg'])}
+            for h_ in hin:
+                if h_ in written or h_ in seen_cov:
+                    continue
+                if not (('def ' in h_ or '_code' in h_ or 'render' in h_) and not h_.startswith(("'", '"'))):
+                    continue
+                if any(h_ in w_ for w_ in written):
+                    continue
+                seen_cov.add(h_)
+                ctx.violation('R10-hash-covers-text', fi, 'hashed but not written on path [%s]: %s' % ('; '.join(p.guard_texts())[:80], h_[:80]),
+                              'the cookie covers a generated part that this path does not write into the file: whether the part is written depends on an option the cookie does not see, so a class declared with the other option value accepts the file and finds the function missing (or runs without it)', ev['eff'].lineno, clause='H', witness=True)
+    if not seen_cov:
+        ctx.holds('R10-hash-covers-text', fi, 'every generated part the cookie covers is written wherever the module is written', 'the cookie tells apart every two files the generator can write', fi.node.lineno, clause='H')
+
+
 def check(ctx):
     repo = ctx.repo
     model = CacheModel(repo, max_paths=max(ctx.max_paths, 65536))
@@ -99,6 +126,7 @@ def check(ctx):
     for p in model.paths:
         for g in model.cookie_guards(p):
             cookie_attr.add(g[1])
+    check_hashed_parts_are_written(ctx, model)
     for p in model.paths:
         evs = model.events(p)
         hin = hash_inputs(model, evs)
